@@ -326,6 +326,44 @@ def run(ctx):
                 ctx.violation(f"C15:cross-process:{item['codec']}:not-identical:{item['kind']}", f"{label} loaded in a fresh process is not the freshly evaluated object: {r['repr']}", {"item": item["term"], "codec": item["codec"]})
             elif not r["names_kept"]:
                 ctx.violation(f"C15:cross-process:{item['codec']}:names-changed:{item['kind']}", f"loading {label} in a fresh process changed its names", {"item": item["term"], "codec": item["codec"]})
+    # ---- dump -> declare a new fundamental dimension -> load, in one process ----------------------------
+    # Dimension.define re-keys every interned dimension (one more exponent); what was serialised before must
+    # still come back as the identical objects
+    # (last, so that the cross-process loads above ran between processes with the same fundamental dimensions)
+    if ctx.shard == 0:
+        sample_units = [pools.units[nm] for nm in rng.sample(pools.unit_names, min(25, len(pools.unit_names)))]
+        sample_units += [sample_units[0] ** 2 / sample_units[1], pools.prefixes["kilo"] * sample_units[2] ** -1]
+        sample_dims = [Dimension._by_name[nm] for nm in shipped_dimension_names] + [m.Length ** 7 / m.Time ** 3]
+        stale = []
+        for obj in sample_dims + sample_units + [Q(3, sample_units[-2]), Q(Decimal("2.5"), sample_units[0])]:
+            for cname in ("pickle2", "pickle5", "cloudpickle", "json"):
+                try:
+                    if cname == "json":
+                        blob = json.dumps(obj, cls=MeasuredJSONEncoder)
+                    elif cname == "cloudpickle":
+                        blob = cloudpickle.dumps(obj)
+                    else:
+                        blob = pickle.dumps(obj, int(cname[-1]))
+                    stale.append((obj, cname, blob))
+                except Exception:
+                    pass
+        nd = Dimension.define(f"zqc15newdim{ctx.seed}", f"Zq15x{ctx.seed}")
+        ctx.count("histories/dimensions_declared_between_dump_and_load")
+        for obj, cname, blob in stale:
+            ctx.count("evaluations")
+            ctx.count("histories/dump-define-load")
+            kind = type(obj).__name__
+            ctx.distinct(("dump-define-load", kind, cname, repr(obj)[:80]))
+            try:
+                y = json.loads(blob, cls=MeasuredJSONDecoder) if cname == "json" else pickle.loads(blob)
+            except Exception as e:
+                ctx.violation(f"C15:{cname}:raised-{type(e).__name__}:after-dimension-define", f"loading {obj!r} dumped before Dimension.define raised {e}", {"codec": cname})
+                continue
+            same = (y == obj and y.unit is obj.unit) if isinstance(obj, Q) else (y is obj)
+            if not same:
+                ctx.violation(f"C15:{cname}:not-identical:{kind}:after-dimension-define",
+                              f"{cname}: {obj!r} dumped, a fundamental dimension declared, then loaded: came back as {y!r} (identical: {y is obj})", {"codec": cname, "object": repr(obj)})
+
     ctx.require("evaluations", 500)
     ctx.require("histories/dump-name-load/unit", 4)
     ctx.require("histories/decode-declare-roundtrip", 10)
